@@ -168,7 +168,8 @@ Proof.
   repeat match goal with |- context [if ?b then Some _ else _] => destruct b eqn:? end;
     intros H; try discriminate H; apply some_inj in H; rename H into H';
     try (repeat prim Hs Hm; fin Hr; fail).
-  - (* 'A' / 'u' / 'a' *) repeat prim Hs Hm. destruct (t =? 65); fin Hr.
+  - (* 'A' / 'u' / 'a' *) repeat prim Hs Hm. unfold text_bad, vge in *. rewrite <- Hv.
+    match goal with H : (if ?b then Err _ else _) = Ok _ |- _ => destruct b; [discriminate H|] end. destruct (t =? 65); fin Hr.
   - (* 'z' 'Z' *) repeat prim Hs Hm. destruct (t =? 90); fin Hr.
   - (* 'R' *) repeat prim Hs Hm. rewrite Hs in H'. rewrite Hm. destruct Hr as (R1 & R2 & R3). rewrite <- R3.
     destruct ((0 <=? z) && (z <? zlen (strs ss))) eqn:Eb; [|discriminate H'].
